@@ -14,7 +14,7 @@
    Gen.CallDefaults / Gen.Formats.  No proofs here. *)
 From CNV Require Import Base.Prelude Base.Str Model.Decimal Model.Call.
 From CNV Require Import Gen.CallDefaults Gen.ExportDefaults.
-From CNV Require Model.Formats Model.Ranges Gen.Formats.
+From CNV Require Model.Formats Model.Ranges Gen.Formats Model.Vcf Model.VBaf.
 
 Local Open Scope Z_scope.
 
@@ -244,17 +244,122 @@ Definition segments2vcf (c : cfg) (rows : list seg) (ci : option (list (option Z
 
 (* export_vcf: header columns + body; `bins` = the optional .cnr table (`if cnarr:` is
    false for an empty one) *)
+Definition vcf_sample_id (sample_id : option string) (table_id : string) : string :=
+  match sample_id with
+  | Some s => if String.eqb s EmptyString then table_id else s
+  | None => table_id
+  end.
+
+(* `if cnarr: segments = assign_ci_start_end(segments, cnarr)` *)
+Definition vcf_ci_source (bins : option (list (string * Z * Z))) (rows : list seg)
+  : option (list (option Z * option Z)) :=
+  match bins with
+  | Some ((_ :: _) as b) => Some (assign_ci b rows)
+  | _ => None
+  end.
+
 Definition export_vcf (c : cfg) (sample_id : option string) (table_id : string) (rows : list seg)
   (bins : option (list (string * Z * Z))) : list string * vcf_result :=
-  let sid := match sample_id with
-             | Some s => if String.eqb s EmptyString then table_id else s
-             | None => table_id
-             end in
-  let ci := match bins with
-            | Some ((_ :: _) as b) => Some (assign_ci b rows)
-            | _ => None
-            end in
-  (vcf_columns ++ [sid], segments2vcf c rows ci).
+  (vcf_columns ++ [vcf_sample_id sample_id table_id], segments2vcf c rows (vcf_ci_source bins rows)).
+
+(* ---------------------------------------------------------------- VCF: text layer *)
+
+(* the rows of the table that get a record (the loop's `continue` condition, negated) *)
+Fixpoint vcf_keep (rows : list seg) (nc ex : list Z) : list bool :=
+  match rows, nc, ex with
+  | s :: rows', n :: nc', x :: ex' =>
+      (negb (n =? x) && match probes_digit s with Some _ => true | None => false end) :: vcf_keep rows' nc' ex'
+  | _, _, _ => []
+  end.
+
+Definition is_none {A} (o : option A) : bool := match o with None => true | Some _ => false end.
+
+Definition tab : string := String (ascii_of_nat 9) EmptyString.
+Definition nan_text : string := "nan".
+
+(* f"{value}" of an element of an int64 / float64 (fl) numpy column; `neg`: the element was
+   obtained by negating z in that dtype (-0.0 prints as "-0.0") *)
+Definition num_text (fl neg : bool) (v : option Z) : string :=
+  match v with
+  | None => nan_text
+  | Some z =>
+      let z' := if neg then - z else z in
+      let body := if neg && (z =? 0) then "-0"%string else print_Z z' in
+      if fl then (body ++ ".0")%string else print_Z z'
+  end.
+
+Definition ci_field (parts : string * string * string) (a b : string) : string :=
+  let '(open, mid, close) := parts in (open ++ a ++ mid ++ b ++ close)%string.
+
+(* the CIPOS / CIEND texts of every row of the table: a ci column holding a NaN is a float64
+   column, and so are the margins computed from it *)
+Definition ci_text_columns (rows : list seg) (ci : list (option Z * option Z)) : list (string * string) :=
+  let flL := existsb (fun c => is_none (fst c)) ci in
+  let flR := existsb (fun c => is_none (snd c)) ci in
+  let left_margin := map2 (fun s c => osub (fst c) (s_lo s)) rows ci in
+  let right_margin := map2 (fun s c => rsub (s_hi s) (snd c)) rows ci in
+  let pos_left := num_text flR false (Some ci_edge) :: map (num_text flR true) (removelast right_margin) in
+  let pos_right := map (num_text flL false) left_margin in
+  let end_left := map (num_text flR false) right_margin in
+  let end_right := map (num_text flL false) (tl left_margin) ++ [num_text flL false (Some ci_edge)] in
+  map2 (fun a b => (a, b)) (map2 (ci_field info_cipos) pos_left pos_right)
+                           (map2 (ci_field info_ciend) end_left end_right).
+
+(* per record: the CI texts of its row, None without ci columns *)
+Definition vcf_ci_texts (c : cfg) (rows : list seg) (ci : option (list (option Z * option Z)))
+  : list (option (string * string)) :=
+  let first := seg_first rows in
+  let nc := ncopies_col c first rows in
+  let ex := if c_has_cn c then absolute_expect c first rows else expect_col c (c_hapx c) first rows in
+  let keep := vcf_keep rows nc ex in
+  match ci with
+  | None => map (fun _ => None) (select keep rows)
+  | Some cols => map Some (select keep (ci_text_columns rows cols))
+  end.
+
+(* `tok`: the texts of 2.0 ** log2 and of log2 as Python prints a float (oracle strings,
+   supplied by the harness: float printing is outside the model) *)
+Definition info_text (r : vcf_rec) (tok : string * string) (ci : option (string * string)) : string :=
+  String.concat info_sep
+    (info_flag
+     :: map2 String.append info_keys
+             [v_svtype r; print_Z (v_end r); print_Z (v_svlen r); fst tok; snd tok; print_Z (v_probes r)]
+     ++ match ci with Some (a, b) => [a; b] | None => [] end).
+
+(* one line of DataFrame.to_csv(sep="\t", index=False) *)
+Definition vcf_line (r : vcf_rec) (tok : string * string) (ci : option (string * string)) : string :=
+  String.concat tab [v_chrom r; print_Z (v_pos r); v_id r; v_ref r; v_alt r; v_qual r; v_filter r;
+                     info_text r tok ci; v_format r; v_sample r].
+
+Fixpoint map3 {A B C D} (f : A -> B -> C -> D) (la : list A) (lb : list B) (lc : list C) : list D :=
+  match la, lb, lc with
+  | a :: ta, b :: tb, c :: tc => f a b c :: map3 f ta tb tc
+  | _, _, _ => []
+  end.
+
+(* VCF_HEADER: the template's lines with {date} and {version} filled in *)
+Definition fill_chunk (date version : string) (ch : bool * string) : string :=
+  if fst ch then
+    (if String.eqb (snd ch) vcf_ph_date then date
+     else if String.eqb (snd ch) vcf_ph_version then version else EmptyString)
+  else snd ch.
+
+Definition vcf_header_lines (date version : string) : list string :=
+  map (fun chunks => String.concat EmptyString (map (fill_chunk date version) chunks)) vcf_header_template.
+
+Inductive text_result :=
+| TextAssert | TextShape
+| TextOk (body : list string).       (* the column line, then one line per record *)
+
+Definition export_vcf_text (c : cfg) (sample_id : option string) (table_id : string) (rows : list seg)
+  (bins : option (list (string * Z * Z))) (toks : list (string * string)) : text_result :=
+  let '(hdr, res) := export_vcf c sample_id table_id rows bins in
+  match res with
+  | VcfAssert => TextAssert
+  | VcfShape => TextShape
+  | VcfOk recs =>
+      TextOk (String.concat tab hdr :: map3 vcf_line recs toks (vcf_ci_texts c rows (vcf_ci_source bins rows)))
+  end.
 
 (* ---------------------------------------------------------------- SEG *)
 
@@ -385,3 +490,151 @@ Definition nexus_row : Type := string * Z * Z * string * Q * string.
 Definition export_nexus_basic (bins : list bin) : list nexus_row :=
   map (fun b => (b_chrom b, b_lo b, b_hi b, b_gene b, b_v b,
                  Formats.to_label (b_chrom b, b_lo b, b_hi b))) bins.
+
+(* ---------------------------------------------------------------- nexus-ogt *)
+
+(* a bin of the .cnr: log2 and the weight cell (None = NaN; ignored without a weight column) *)
+Record obin := mkObin { o_chrom : string; o_lo : Z; o_hi : Z; o_v : Q; o_w : option Q }.
+
+Definition qltb (a b : Q) : bool := negb (Qle_bool b a).
+
+Definition obin_region (b : obin) : VBaf.grange := (o_chrom b, o_lo b, o_hi b).
+
+(* `if min_weight and "weight" in cnarr: cnarr = cnarr[~(cnarr["weight"] < min_weight)]`
+   (a NaN weight is not below anything) *)
+Definition ogt_low (min_weight : Q) (b : obin) : bool :=
+  match o_w b with Some w => qltb w min_weight | None => false end.
+
+Definition ogt_kept (min_weight : Q) (has_weight : bool) (bins : list obin) : list obin :=
+  if negb (Qeq_bool min_weight 0) && has_weight
+  then filter (fun b => negb (ogt_low min_weight b)) bins
+  else bins.
+
+(* Chromosome, Position (start), Position (end), Log R Ratio, B-Allele Frequency *)
+Definition ogt_row : Type := string * Z * Z * Q * Vcf.xq.
+
+(* export_nexus_ogt(cnarr, varr, min_weight): varr.baf_by_ranges(cnarr) with its defaults
+   (above_half=None, tumor_boost=False) is the C18 model; None = no bin left at all (the
+   code raises TypeError in its logging call) *)
+(* `out_table["B-Allele Frequency"] = np.asarray(bafs)`: one value per kept bin, by position
+   (repaired in /repo 718de44: the Series used to be aligned on the bins' row labels) *)
+Definition export_nexus_ogt (paired : bool) (vrows : list VBaf.lrow) (min_weight : Q) (has_weight : bool)
+  (bins : list obin) : option (list ogt_row) :=
+  let kept := ogt_kept min_weight has_weight bins in
+  match VBaf.baf_by_ranges paired vrows (map obin_region kept) None ogt_tumor_boost with
+  | Some bafs => Some (map2 (fun b f => (o_chrom b, o_lo b, o_hi b, o_v b, f)) kept bafs)
+  | None => None
+  end.
+
+(* ---------------------------------------------------------------- THetA *)
+
+(* GenomicArray.autosomes: chromosome.str.match(r"(chr)?\d+$") -- an optional "chr", then one
+   or more digits up to the end of the name *)
+Definition all_digits (l : list ascii) : bool :=
+  match l with [] => false | _ => forallb is_digit l end.
+(* re.match tries the optional group first and backtracks to the empty alternative *)
+Definition is_auto_chars (l : list ascii) : bool :=
+  if prefixb (chars "chr") l && all_digits (skipn 3 l) then true else all_digits l.
+Definition is_auto_name (s : string) : bool := is_auto_chars (chars s).
+
+(* autosomes(also=[]): no numerically named chromosome at all => the table itself *)
+Definition theta_autosomes {A} (name : A -> string) (l : list A) : list A :=
+  if existsb (fun x => is_auto_name (name x)) l then filter (fun x => is_auto_name (name x)) l else l.
+
+(* a tumor segment: e = 2^log2 (oracle value); probes / weight are read only when the table
+   has the column *)
+Record tseg := mkTseg { t_chrom : string; t_lo : Z; t_hi : Z; t_e : Q; t_probes : Z; t_weight : Q }.
+
+(* a bin of the normal / reference table: chromosome, start, end, log2 *)
+Definition nbin : Type := string * Z * Z * Q.
+Definition nb_region (b : nbin) : string * Z * Z := let '(c, lo, hi, _) := b in (c, lo, hi).
+Definition nb_chrom (b : nbin) : string := let '(c, _, _, _) := b in c.
+Definition nb_log2 (b : nbin) : Q := let '(_, _, _, v) := b in v.
+Definition tseg_region (s : tseg) : string * Z * Z := (t_chrom s, t_lo s, t_hi s).
+
+Definition qsum (l : list Q) : Q := fold_left (fun a x => Qred (a + x)) l 0%Q.
+Definition qmean (l : list Q) : Q := Qred (qsum l / inject_Z (Z.of_nat (length l))).
+Definition qmaxl (l : list Q) : Q := match l with [] => 0%Q | x :: t => fold_left qmax t x end.
+
+(* [bins["log2"] for _seg, bins in normal_cn.by_ranges(tumor_segs)]: the bins' log2 per
+   segment, in the order by_ranges yields the segments *)
+Definition theta_bins_in (normal : list nbin) (segs : list tseg) : list (list Q) :=
+  map (fun p : Ranges.trow * list Ranges.row =>
+         map (fun r => nth (Z.to_nat (Ranges.r_id r)) (map nb_log2 normal) 0%Q) (snd p))
+      (Ranges.ga_by_ranges (to_trows 0 (map nb_region normal)) (to_trows 0 (map tseg_region segs))
+                           Ranges.QOuter true).
+
+(* s.mean(): None = NaN (no bin) *)
+Definition theta_ref_means (normal : list nbin) (segs : list tseg) : list (option Q) :=
+  map (fun l => match l with [] => None | _ => Some (qmean l) end) (theta_bins_in normal segs).
+
+(* ref_means_nbins without a normal: the nbins column *)
+Definition theta_nbins (hp hw : bool) (segs : list tseg) : list Q :=
+  let ws := map t_weight segs in
+  if hw && existsb (fun w => qltb theta_new_weight_above w) ws then
+    let d := Qred (qmaxl ws / qmean ws) in
+    map (fun w => Qred (w / d)) ws
+  else
+    let base :=
+      if hp then map (fun s => inject_Z (t_probes s)) segs
+      else let sizes := map (fun s => inject_Z (t_hi s - t_lo s)) segs in
+           let m := qmean sizes in map (fun z => Qred (z / m)) sizes in
+    if hw then let m := qmean ws in map2 (fun b w => Qred (b * Qred (w / m))) base ws else base.
+
+(* theta_read_counts on one element: nbins * avg_bin_width * (2**log2 * avg_depth) / read_len, rounded *)
+Definition theta_value (e nb : Q) : Q :=
+  Qred (Qred (Qred (nb * inject_Z theta_bin_width) * Qred (e * inject_Z theta_depth)) / inject_Z theta_read_len).
+Definition theta_count (e nb : Q) : Z := round_he (theta_value e nb).
+
+(* 2 ** 0.0 for ref_means = np.zeros(...) *)
+Definition theta_neutral_ratio : Q := 1.
+
+Fixpoint index_from (c : string) (names : list string) (i : Z) : Z :=
+  match names with
+  | [] => i
+  | x :: t => if String.eqb x c then i else index_from c t (i + 1)
+  end.
+
+(* f"start_{row.chrm}_{row.start}:end_{row.chrm}_{row.end}" *)
+Definition theta_id (chrm lo hi : Z) : string :=
+  match theta_id_parts with
+  | [a; b; c; d] => (a ++ print_Z chrm ++ b ++ print_Z lo ++ c ++ print_Z chrm ++ d ++ print_Z hi)%string
+  | _ => EmptyString
+  end.
+
+(* #ID, chrm, start, end, tumorCount, normalCount *)
+Definition theta_row : Type := string * Z * Z * Z * Z * Z.
+
+Definition theta_rows (segs : list tseg) (tc nc : list Z) : list theta_row :=
+  let names := Formats.distinct_names [] (map t_chrom segs) in
+  map3 (fun s t n => let ch := index_from (t_chrom s) names theta_first_chrm in
+                     (theta_id ch (t_lo s) (t_hi s), ch, t_lo s, t_hi s, t, n)) segs tc nc.
+
+Inductive theta_result :=
+| ThetaEmpty                       (* `if not tumor_segs`: an empty frame *)
+| ThetaAttr                        (* AttributeError: bin counts as an ndarray have no .fillna *)
+| ThetaOk (rows : list theta_row).
+
+(* export_theta(tumor_segs, normal_cn); hp / hw: the segment table has a probes / weight
+   column; `en`: 2 ** ref_mean per kept segment (oracle values, read only with a normal) *)
+Definition export_theta (hp hw : bool) (rows : list tseg) (normal : option (list nbin)) (en : list Q)
+  : theta_result :=
+  match rows with
+  | [] => ThetaEmpty
+  | _ =>
+      let segs := theta_autosomes t_chrom rows in
+      match normal with
+      | Some ((_ :: _) as nb) =>
+          if negb hp then ThetaAttr else
+          let nb' := theta_autosomes nb_chrom nb in
+          let nbins := map (fun s => inject_Z (t_probes s)) segs in
+          let tc := map2 (fun s n => theta_count (t_e s) n) segs nbins in
+          let ncnt := map3 (fun (m : option Q) e n => match m with Some _ => theta_count e n | None => theta_nan_count end)
+                           (theta_ref_means nb' segs) en nbins in
+          ThetaOk (theta_rows segs tc ncnt)
+      | _ =>
+          let nbins := theta_nbins hp hw segs in
+          ThetaOk (theta_rows segs (map2 (fun s n => theta_count (t_e s) n) segs nbins)
+                              (map (theta_count theta_neutral_ratio) nbins))
+      end
+  end.
